@@ -133,6 +133,11 @@ class Extra:
 
     def __call__(self, s, o):
         out = []
+        mo = o["members"][0]
+        if mo.get("statement") == "ok" and mo.get("witness", "ok") == "ok" and not str(mo.get("prove", "")).startswith("panic"):
+            g = pmodel.guard_term(s["members"][0], mo.get("prove") == "ok")
+            if g:
+                out.append((g, (s, "prover", 0)))
         if o.get("group") == "fm" and s.get("with_gens"):
             t = pmodel.prove_term(s["members"][0], o["members"][0])
             if t:
@@ -149,7 +154,7 @@ def run(run: Run):
         "(statement, witness) pairs with exactly one violation of the witness relation at the first / last / a random position of the aggregate "
         "(value +-1 under the same commitment, one blinding component changed, value 2^n-1 / 2^n / u64::MAX, promise = value / value+1, value >= 2^n masked by a "
         "promise, missing / extra opening, witness degree +-1, swapped openings) and the valid boundary cases; prove Ok/Err is compared with the validity the "
-        "generator knows, every Ok is verified, and valid small cases are compared with the Coq prover model; distinct by (bits, m, T, case kind, outcome)",
+        "generator knows and with the Coq guard model (witness_valid evaluated at the concrete field on the same statement / witness), every Ok is verified, and valid small cases are compared with the Coq prover model; distinct by (bits, m, T, case kind, outcome)",
         [],
         TRUSTED)
 
